@@ -10,13 +10,14 @@ CLASSES = ["pess", "opt", "mcs"]
 QUICK_CAPS = [1, 2, 3, 8]
 THOROUGH_CAPS = [1, 2, 3, 5, 8, 16, 64, 100]
 BIG_CAP = 100  # more than 64 IDs (a second 64-bit word for anything that keeps per-ID bitmaps)
+HUGE_CAP = 70000  # more than 2^16 IDs
 
 
 def all_builds():
     b = ["lock_stress.plain", "lock_stress.tsan", "lock_stress.asan", "lock_seq.plain",
          "lock_stress.plain.spinalt", "lock_seq.plain.spinalt",
          "zipf_mon.plain", "zipf_mon.asanfatal", "zipf_mon.tsan"]
-    b += ["thr_mon.plain.n%d" % n for n in QUICK_CAPS + [BIG_CAP]]
+    b += ["thr_mon.plain.n%d" % n for n in QUICK_CAPS + [BIG_CAP, HUGE_CAP]]
     b += ["thr_mon.asan.n%d" % n for n in (3, 8)]
     return b
 
@@ -41,6 +42,8 @@ def lock_jobs(rng, classes, profiles, runs_per_class, flavor="plain", ops_total=
             }
             if flavor == "plain" and i % 3 == 2:
                 args["preempt"] = 1  # SIGUSR1-based stalls at arbitrary instructions
+            if i % 8 == 4:
+                args["edge"] = 1  # probe the edge of the shared counter (2^14, 2^15 - 1 grants) before the workload
             if flavor == "plain" and i % 3 == 0 and args["chaos"] != 0:
                 args["step"] = 1  # trap-flag stepper: stalls at single instruction boundaries inside library calls
             if cls == "opt" and args["locks"] >= 2 and i % 3 == 1:
@@ -316,10 +319,15 @@ def spec_C19(prop, tier, seed, t0):
     scale = 2 if tier == "quick" else 40
     jobs = zipf_jobs("c19", seed, scale, "plain")
     jobs += zipf_jobs("c19", seed + 7, max(1, scale // 2), "tsan", shards=8)
-    rule = ("one evaluation = one draw; for every sampled parameter set the sequences of an equal-parameter twin, a "
-            "second pass, copies, moved generators and of 2-6 threads sharing one const generator are compared "
-            "element-wise with the reference sequence; constructors with max < min must throw; the TSan build "
-            "reports any data race on the shared generator; distinct = (class, type, n class, thread count)")
+    # (ASan+UBSan, reports fatal: a copy that still reads its destroyed source, tables indexed out of range)
+    jobs += zipf_jobs("c19", seed + 11, 1 if tier == "quick" else 8, "asanfatal", shards=8, abort_prop="C19")
+    rule = ("one evaluation = one draw; for every sampled parameter set the sequences of an equal-parameter twin (also "
+            "one built after generators with the same skew and other sizes, by a fresh thread, while other threads "
+            "construct other skews, and as the first constructions of the process by six threads at once), a second "
+            "pass, copies (also after the source was reassigned or destroyed), moved and re-assigned generators and of "
+            "2-6 threads sharing one const generator are compared element-wise with the reference sequence; "
+            "constructors with max < min must throw; the TSan build reports any data race on the shared generator, the "
+            "ASan+UBSan build any invalid access; distinct = (class, type, n class, thread count)")
     return _mk(prop, tier, seed, t0, jobs, {"sequences_compared": 1500, "rejections_checked": 100,
                                            "distinct_nontrivial": 30}, rule=rule, assumptions=ZIPF_ASSUME)
 
@@ -366,6 +374,12 @@ def storm_jobs(tier, seed):
     jobs += thr_jobs("handoff", [1, 2, 3, 8] if tier == "quick" else [1, 2, 3, 5, 8, 16, 64, BIG_CAP], seed + 21,
                      4 if tier == "quick" else 8, 1 if tier == "quick" else 3, cost=6,
                      extra=lambda rng, n, i: {"preempt": 1 if i % 4 == 2 else 0, "step": i % 2, "hang_s": 20})
+    if tier == "quick":
+        # (more than 32 and more than 64 IDs held at the same time: per-ID bitmaps, masks)
+        jobs += thr_jobs("handoff", [BIG_CAP], seed + 22, 2, 1, cost=6,
+                         extra=lambda rng, n, i: {"preempt": 0, "step": i % 2, "hang_s": 20})
+    # a capacity above 2^16 (IDs narrowed to 8 or 16 bits somewhere would collide with the low slots)
+    jobs += thr_jobs("bigcap", [HUGE_CAP], seed + 23, 2 if tier == "quick" else 6, 1 if tier == "quick" else 4, cost=4)
     return jobs
 
 
@@ -377,7 +391,8 @@ STORM_RULE = ("; in addition claim storms without injected delays: mode=churnsto
               "transient threads that claim and exit at once, table kept nearly full) and requires after every step "
               "that min(N, holder threads alive) threads hold an ID; every second handoff run arms the CPU trap flag in "
               "selected claimers / exiting threads at the probe hook / the first exit hook and stalls them for "
-              "3-120 us after a random number (1-220) of single instructions")
+              "3-120 us after a random number (1-220) of single instructions; mode=bigcap (capacity 70000) steers pairs of "
+              "threads onto slot s >= 2^k and slot s - 2^k (k = 8, 16) and requires distinct IDs")
 
 
 def _id_check(prop, tier, seed, t0, caps_q, floors):
@@ -386,10 +401,11 @@ def _id_check(prop, tier, seed, t0, caps_q, floors):
     jobs = thr_jobs("id", caps, seed, runs, scale, extra={"hang_s": 20})
     jobs += storm_jobs(tier, seed)
     floors = dict(floors)
-    floors.update({"churn_storm_workers": 20000, "storm_rounds": 5000, "handoff_steps": 50000,
-                   "claims_that_filled_the_table_while_a_holder_exited": 3000,
-                   "exits_while_threads_were_waiting_for_an_id": 3000, "cascades_of_transient_claimers": 5000,
-                   "stepper_stalls_at_single_instructions": 3000})
+    floors.update({"churn_storm_workers": 20000, "storm_rounds": 5000, "handoff_steps": 20000,
+                   "large_capacity_slot_pairs": 1000,
+                   "claims_that_filled_the_table_while_a_holder_exited": 1000,
+                   "exits_while_threads_were_waiting_for_an_id": 1000, "cascades_of_transient_claimers": 2000,
+                   "stepper_stalls_at_single_instructions": 1000})
     return _mk(prop, tier, seed, t0, jobs, floors, rule=ID_RULE + STORM_RULE, assumptions=THR_ASSUME)
 
 
@@ -408,7 +424,7 @@ def spec_C14(prop, tier, seed, t0):
 def spec_C15(prop, tier, seed, t0):
     return _id_check(prop, tier, seed, t0, [1, 2, 3, 8],
                      {"id_reuses_checked": 5000, "chaos_overlaps:43+44": 300,
-                      "heartbeat_alive_checks_on_running_threads": 40, "heartbeats_pinned_by_other_threads": 100})
+                      "heartbeat_alive_checks_on_running_threads": 40, "heartbeats_pinned_by_other_threads": 60})
 
 
 EPOCH_RULE = ("one evaluation = one ForwardGlobalEpoch, one guard or one list returned by GetProtectedEpochs in a run "
